@@ -51,7 +51,9 @@ class LindbladForm(RedfieldRelaxationTensor):
         if sbi is None:
             KK = numpy.zeros((1, Na, Na), dtype=REAL)
         else:
-            KK = sbi.KK
+            # a copy: the operators are transformed in place together with
+            # this object and must not alias the caller's interaction
+            KK = sbi.KK.copy()
             
         self._post_implementation(KK, llm, lld)
 
